@@ -334,11 +334,13 @@ pub fn case_strategy() -> BoxedStrategy<LuaCase> {
         1 => Just(String::new()),
         1 => Just("   ".to_string()),
         1 => Just("k = -5".to_string()),
+        1 => Just("j 12 then k 7".to_string()),
+        1 => Just("kappa".to_string()),
         1 => Just("ends with ideographic space\u{3000}".to_string()),
         1 => Just("ends with nbsp\u{a0}\u{a0}".to_string()),
     ];
     let attr = (prop_oneof![Just("data-x"), Just("note"), Just("k_1"), Just("имя")], proptest::string::string_regex("[ -!#-;=?-~é]{0,12}").unwrap()).prop_map(|(k, v)| (k.to_string(), v));
-    let block = (proptest::collection::vec(text, 0..6), proptest::collection::vec(attr, 0..3), proptest::option::weighted(0.25, 0u8..5), proptest::bool::weighted(0.3), prop_oneof![3 => Just(0u32), 2 => 0u32..2000, 1 => 0u32..300000], 0u8..6, proptest::bool::weighted(0.2), proptest::bool::weighted(0.25), proptest::bool::weighted(0.1))
+    let block = (proptest::collection::vec(text, 0..6), proptest::collection::vec(attr, 0..3), proptest::option::weighted(0.3, 0u8..(models::KEY_PATS.len() as u8)), proptest::bool::weighted(0.3), prop_oneof![3 => Just(0u32), 2 => 0u32..2000, 1 => 0u32..300000], 0u8..6, proptest::bool::weighted(0.2), proptest::bool::weighted(0.25), proptest::bool::weighted(0.1))
         .prop_map(|(lines, extra_attrs, pattern, returns_nil, busy, file, plain, shares_prev, returns_empty)| LBlock { lines: lines.into_iter().map(|l| l.replace("<block", "<blok").replace("</block", "</blok")).collect(), extra_attrs, pattern, returns_nil, busy, file, plain, shares_prev, returns_empty })
         .boxed();
     (
